@@ -499,6 +499,67 @@ def limit_rule(ctx, r):
             r.bad("%s|context|acr" % name, "context() does not maintain after_context_remaining / should_quit", fn=g)
 
 
+
+def prompt_rule(ctx, r):
+    """C16: results delivered before an error are a prefix of the full results and completion is never signalled after one.
+    Structural half: assuming a fallible call returned Err, no call that can deliver (a Sink method or a searcher function that
+    reaches one) is executable afterwards, and every return value is Err."""
+    facts = ctx.facts
+    cg = CallGraph(facts)
+    sink_methods = {n for outs in cg.out.values() for n in outs if n and n.startswith(SINK + "::") and
+                    n.rsplit("::", 1)[1] in ("matched", "context", "context_break", "binary_data", "begin", "finish")}
+    deliver = cg.may_reach(sink_methods, within=lambda p: p.startswith("grep_searcher::")) | sink_methods
+    n = 0
+    for f in sorted(facts.fns.values(), key=lambda f: f.path):
+        if not f.path.startswith(ERR_SCOPE) or "::tests::" in f.path or f.kind == "closure" or f.d.get("impl_trait") in (
+                "core::fmt::Debug", "core::clone::Clone", "core::fmt::Display"):
+            continue
+        if not f.local_ty(0).startswith("std::result::Result<"):
+            continue
+        ordinal = {}
+        for c in f.calls():
+            if c.dest is None or c.dest["p"] or c.target is None:
+                continue
+            ty = f.local_ty(c.dest["l"])
+            if not ty.startswith("std::result::Result<"):
+                continue
+            if not any(ty.rstrip(">").endswith(e.rstrip(">")) or (", " + e + ">") in ty for e in ERR_TYPES):
+                continue
+            if c.is_(*TRY_BRANCH) or c.is_(*FROM_RESIDUAL) or c.path.startswith(("core::result::Result::", "core::ops::")):
+                continue
+            k = ordinal.get(c.path, 0)
+            ordinal[c.path] = k + 1
+            key = "%s|%s|%d" % (f.path.split("grep_searcher::", 1)[1], c.path.split("::")[-1], k)
+            def model(c_, argv):
+                # Err stays Err through the variant-preserving adapters
+                if c_.path in ("core::result::Result::map_err", "core::result::Result::map", "core::result::Result::and_then",
+                               "core::result::Result::inspect_err") and argv and argv[0] is not None and argv[0][0] == "v" \
+                        and argv[0][1] == "Err":
+                    return V("Err", None)
+                return None
+            sx = seed_after_call(f, c, V("Err", None), call_model=model)
+            late = []
+            for c2 in f.calls():
+                if c2.bb in sx.exec_blocks and c2.bb != c.bb and any(nm in deliver for nm in c2.names if nm):
+                    late.append(c2)
+            vals = set()
+            for v_ in sx.ret_values.values():
+                vals |= set(value_set(v_)) if v_ is not None else {None}
+            n += 1
+            if late:
+                r.bad(key, "after %s has failed, %s still runs %s (%s): lines of an input that could not be read or searched to the "
+                      "end are delivered and may not be a prefix of the full results" % (
+                          c.path.split("::")[-1], f.path.split("::")[-1], late[0].path.split("::")[-1], late[0].loc),
+                      fn=f, loc=c.loc, construct="prompt")
+            elif not vals or not all(v_ is not None and v_[1] == "Err" for v_ in vals):
+                # the retried Interrupted read and the documented capacity hint answer Ok on purpose; both are decided by
+                # C16.INTR / C16.ERR, not here
+                r.ok(key, "failure handled without delivering (answer %s; see C16.ERR / C16.INTR)" % sorted(map(str, vals)), fn=f,
+                     nontrivial=False)
+            else:
+                r.ok(key, "Err ⇒ nothing delivered afterwards, Err returned", fn=f)
+    r.note_sites(n)
+
 def run(ctx):
     with ctx.rule("C16.STOP", "under 'callee said stop' no delivering call is reachable and the caller reports stop",
                   floor=40, kind="STOP/A3") as r:
@@ -511,6 +572,9 @@ def run(ctx):
     with ctx.rule("C16.ERR", "no Result of an I/O / sink / config / matcher call in the searcher is dropped or swallowed",
                   floor=30, kind="USED/A10") as r:
         err_rule(ctx, r)
+    with ctx.rule("C16.PROMPT", "an error ends the search where it happens: once a fallible call of the searcher has failed, nothing "
+                  "that delivers to the sink is called any more and the function answers Err", floor=90, kind="STOP/A3") as r:
+        prompt_rule(ctx, r)
     with ctx.rule("C16.INTR", "in both fill loops an Interrupted read is retried and every other read error is returned",
                   floor=4, kind="NOCALL") as r:
         interrupted_rule(ctx, r)
